@@ -21,7 +21,7 @@ Ltac in_items Hit :=
   first [ apply in_map_iff in Hit; destruct Hit as [[? ?] [<- _]] | destruct Hit as [<-|[]] ].
 Ltac walk_ok :=
   apply forallb_forall; intros g Hg; in_groups Hg;
-  unfold group_paths_ok; cbn [g_items g_path]; apply forallb_forall; intros it Hit; in_items Hit;
+  unfold group_paths_ok, mk_group; cbn [g_items g_path]; apply forallb_forall; intros it Hit; in_items Hit;
   unfold item_path_ok; cbn [it_key kpath ksub loc fst snd]; rewrite path_eqb_refl; reflexivity.
 
 Lemma adf11_paths f r : forallb (group_paths_ok MA) (groups_adf11 f r) = true.
@@ -130,11 +130,11 @@ Proof.
     destruct (commit_items_A (g_items g)) as [l o]; cbn in HA. destruct o; cbn.
     + destruct (commit_A gs) as [l' o']; cbn in *. rewrite !in_app_iff. intros [H|H]; auto.
     + rewrite in_app_iff. auto.
-  - destruct (g_ok g && forallb it_ok (g_items g)); cbn; [|tauto].
+  - destruct (g_ok g); cbn; [|tauto]. destruct (forallb it_ok (g_items g)); cbn; [|tauto].
     destruct (commit_B gs) as [l' o']; cbn in *. rewrite !in_app_iff. intros [H|H]; auto.
   - unfold group_writes. destruct (g_ok g); cbn; [|tauto].
     destruct (g_items g) as [|it [|it2 rest]]; cbn; try tauto.
-    destruct (it_ok it); cbn; [|tauto].
+    destruct (it_ok it); cbn; [|tauto]. destruct (it_ser it); cbn; [|tauto].
     destruct (commit_C gs) as [l' o']; cbn in *. intros [<-|H]; auto.
 Qed.
 
@@ -145,11 +145,11 @@ Proof.
     pose proof (commit_items_A_done (g_items g)) as HA.
     destruct (commit_items_A (g_items g)) as [l o]; cbn in HA. destruct o; cbn; [|discriminate].
     destruct (commit_A gs) as [l' o']; cbn in *. intros H. rewrite IH, HA; auto.
-  - destruct (g_ok g && forallb it_ok (g_items g)); cbn; [|discriminate].
+  - destruct (g_ok g); cbn; [|discriminate]. destruct (forallb it_ok (g_items g)); cbn; [|discriminate].
     destruct (commit_B gs) as [l' o']; cbn in *. intros H. now rewrite IH.
   - unfold group_writes. destruct (g_ok g); cbn; [|discriminate].
     destruct (g_items g) as [|it [|it2 rest]]; cbn; try discriminate.
-    destruct (it_ok it); cbn; [|discriminate].
+    destruct (it_ok it); cbn; [|discriminate]. destruct (it_ser it); cbn; [|discriminate].
     destruct (commit_C gs) as [l' o']; cbn in *. intros H. now rewrite IH.
 Qed.
 
@@ -309,7 +309,7 @@ Proof.
     apply files_write in H as [->|H]; auto. right. apply is_prefix_app.
   - destruct (g_ok g); cbn; auto.
     destruct (g_items g) as [|it [|it2 rest]]; cbn; auto.
-    destruct (it_ok it); cbn; auto.
+    destruct (it_ok it); cbn; auto. destruct (it_ser it); cbn; auto.
     intros H. apply IH in H as [H|H]; auto.
     apply files_write in H as [->|H]; auto. right. apply is_prefix_app.
 Qed.
